@@ -159,7 +159,7 @@ class Histories(Stream):
             ops = []
             for _ in range(rng.randint(6, 18)):
                 op = rng.choice(["fetch", "fetch", "fetch_track", "diff", "extract", "format", "clone", "show", "arg", "pickle", "deepcopy",
-                                 "shallow_edit", "result_edit", "deep_edit", "resolve", "repeat", "repeat", "parse_reg", "include_scope", "fetch_other", "fetch_track", "index_reset"])
+                                 "shallow_edit", "result_edit", "deep_edit", "resolve", "repeat", "repeat", "parse_reg", "include_scope", "fetch_other", "fetch_track", "index_reset", "fetch_skip"])
                 ops.append([op, rng.randrange(1 << 30)])
             yield {"master": master, "sources": sources, "ops": ops}
 
@@ -316,6 +316,21 @@ class Histories(Stream):
                                 break
                         for o in r[1].objects[:3]:
                             self.assign_fields(o, rr)
+                elif op == "fetch_skip":
+                    # the tolerant mode: a user file of an older layout offers a SCOPE under the name of a master definition (and a
+                    # definition under the name of a master scope); the objects of the result are the caller's to edit (round 9)
+                    names = [o.name for o in master.objects if not o.is_disabled and "." not in o.name]
+                    pick = [n for n in names if rr.random() < 0.5] or names[:1]
+                    text = "".join("%s {\n  c = 3\n}\n" % n if rr.random() < 0.7 else "%s = 1\n" % n for n in pick)
+                    old = safe(lambda: fp.parse(input_string=text))
+                    if old[0] == "ok":
+                        sub = [old[1]] + [s for s in sources if rr.random() < 0.5]
+                        f = lambda sub=sub: json.dumps(canon(objs_sx(master.fetch(sources=sub, skip_incompatible_objects=True))))
+                        run(op, f)
+                        r = safe(lambda: master.fetch(sources=sub, skip_incompatible_objects=True))
+                        if r[0] == "ok":
+                            for o in list(r[1].objects):
+                                self.assign_fields(o, rr)
                 elif op == "include_scope":
                     # the long-lived master spliced into another document by 'include scope' (twice, at two depths): the
                     # Python-level scope that is included must stay as it was (parent links and full paths included)
